@@ -126,7 +126,7 @@ def main():
         dst = os.path.join(ROOT, "seeded", os.path.basename(sd))
         os.makedirs(dst, exist_ok=True)
         for f in os.listdir(sd):
-            if os.path.isfile(os.path.join(sd, f)):
+            if os.path.isfile(os.path.join(sd, f)) and os.path.abspath(sd) != os.path.abspath(dst):
                 shutil.copyfile(os.path.join(sd, f), os.path.join(dst, f))
         m = dict(meta)
         m["breaks_property"] = meta.get("property")
